@@ -68,6 +68,7 @@ type Container struct {
 	UpProc   int             // daemon incarnation in which its ports were (re)opened
 	DelOK    bool
 	DelOKProc int // daemon incarnation that answered its first successful DEL
+	prevDelClean bool // its previous request was a DEL that ended without injected fault and without plugin failure (it consumed the recorded state)
 	LateDels  int  // DELs sent after it stopped being the pod's current sandbox
 	Abandoned bool // kubelet will never send DEL (C17)
 	DelTries int
@@ -95,6 +96,8 @@ type Request struct {
 	before  []string
 	inUse   bool
 	fault   bool
+	invoked   int  // plugin invocations during this request
+	pluginFailed bool // a scripted plugin failure hit this request
 	badResult bool // the last plugin succeeded with a result the daemon cannot use: the request fails for that reason
 	overlap bool // another request of the same pod was in flight while this one ran
 	opened  []string
@@ -219,6 +222,7 @@ type World struct {
 	crashAt        int
 	foreign        []string // foreign ports bound during the run
 	decoded        []DecodedIP // what the plugin-side decoder made of the last ipinfos arguments
+	c13Invs        []C13Invocation // every plugin ADD: what the decoder made of its arguments
 
 	key     string
 	summary []string
@@ -373,12 +377,26 @@ func (w *World) createPodObject(p *PodDef) {
 	if p.HostNetwork {
 		pod.Status.PodIP = "192.168.1.10"
 	}
+	for i := 1; i < p.NContainers; i++ {
+		pod.Spec.Containers = append(pod.Spec.Containers, corev1.Container{Name: fmt.Sprintf("c%d", i)})
+	}
 	if p.WantENI {
 		q := resource.NewQuantity(1, resource.DecimalSI)
-		pod.Spec.Containers[0].Resources.Requests = corev1.ResourceList{corev1.ResourceName(eniResource): *q}
+		on := p.ENIOn
+		if on >= len(pod.Spec.Containers) {
+			on = 0
+		}
+		pod.Spec.Containers[on].Resources.Requests = corev1.ResourceList{corev1.ResourceName(eniResource): *q}
+		// the other containers ask for ordinary resources only
+		for i := range pod.Spec.Containers {
+			if i != on {
+				pod.Spec.Containers[i].Resources.Requests = corev1.ResourceList{corev1.ResourceCPU: *resource.NewMilliQuantity(100, resource.DecimalSI)}
+			}
+		}
 	}
-	for _, pd := range p.Ports {
-		pod.Spec.Containers[0].Ports = append(pod.Spec.Containers[0].Ports, corev1.ContainerPort{ContainerPort: int32(pd.ContainerPort),
+	for j, pd := range p.Ports {
+		ci := j % len(pod.Spec.Containers)
+		pod.Spec.Containers[ci].Ports = append(pod.Spec.Containers[ci].Ports, corev1.ContainerPort{ContainerPort: int32(pd.ContainerPort),
 			HostPort: int32(pd.HostPort), Protocol: corev1.Protocol(pd.Proto), HostIP: pd.HostIP})
 	}
 	w.mustCreate("pods", pod)
